@@ -348,7 +348,7 @@ Lemma send_msg_read_index_response_same r m r' :
   send_msg_read_index_response r m = Ok r' -> same_hs r r'.
 Proof.
   unfold send_msg_read_index_response. intros H.
-  destruct (is_singleton _); [eapply respond_read_index_same; eassumption|].
+  destruct (_ && is_singleton _); [eapply respond_read_index_same; eassumption|].
   inv_ok; fwd.
   - eapply same_hs_trans; [|eassumption]. same_hs_done.
   - eapply respond_read_index_same; eassumption.
